@@ -533,7 +533,7 @@ template <class C> Verdict check_C11(const Plan& plan, Stats& st) {
                     violate(V_EQUALS, std::string(r ? "[equal-but-components-differ]" : "[unequal-but-components-identical]") + " uriEqualsUri(u" + std::to_string(a) + ", u" + std::to_string(b) + ") = " + (r ? "true" : "false") +
                             " but the components " + (comp ? "are identical" : "differ in: " + diff) + "; a={" + va.str(false) + "} b={" + vb.str(false) + "}", false);
                 }
-                if (text_ok[(size_t)a] && text_ok[(size_t)b]) {
+                if (text_ok[(size_t)a] && text_ok[(size_t)b] && !ex.us[a].survivor && !ex.us[b].survivor) {
                     bool same_text = textv[(size_t)a] == textv[(size_t)b];
                     if (r && !same_text) violate(V_EQUALS, "[equal-but-texts-differ] equal URIs recompose to different texts \"" + hexesc(textv[(size_t)a]) + "\" vs \"" + hexesc(textv[(size_t)b]) + "\"", false);
                     // (two objects with identical text that compare unequal are either componentwise identical - reported above - or at
@@ -547,7 +547,8 @@ template <class C> Verdict check_C11(const Plan& plan, Stats& st) {
         }
         // an object against the re-parse of its own text
         for (int a : live) {
-            if (!text_ok[(size_t)a]) continue;
+            // (what a failed in-place call leaves behind is compared component-wise like every object, but nothing is claimed about its text)
+            if (!text_ok[(size_t)a] || ex.us[a].survivor) continue;
             Reparse<C> rp; rp.run(ex, n, textv[(size_t)a]);
             if (rp.aborted) return;
             if (rp.rc == URI_SUCCESS) {
@@ -563,7 +564,8 @@ template <class C> Verdict check_C11(const Plan& plan, Stats& st) {
             rp.done(ex, n);
         }
     };
-    RunOut<C> out = run_plan<C>(plan, st, false, true, std::function<void(Exec<C>&, int)>(), endhook);
+    RunOut<C> out = run_plan<C>(plan, st, true, true, std::function<void(Exec<C>&, int)>(), endhook);   // faults on: only "keep" ops carry one
+    for (size_t i = 0; i < plan.ops.size(); i++) if (plan.ops[i].keep && out.outs[i].fired) { st.fault("alloc_fail.object_kept_in_use"); }
     st.probe("pairs_compared", (unsigned long long)pairs);
     if (pairs > 1) { st.nontrivial++; st.signatures.insert(sig); }
     Violation v;
